@@ -307,6 +307,66 @@ def rule_T3(ctx):
     ctx.analysed(m, c, r)
 
 
+def rule_T5(ctx):
+    """Finite log_p_one needs a strictly positive concentration: log(alpha) enters the prior multiplied by the
+    number of clones (0 * -inf = nan on a tree without clones, -inf otherwise).  A Gamma draw with shape < 1
+    (run.py uses 0.01) underflows to exactly 0.0 with non-negligible probability, so every value the
+    concentration sampler returns must be floored by a positive constant; the run loop stores that value."""
+    from fractions import Fraction
+
+    from ..formula import extract
+    from ..termflow import Poly, key_atom, poly_from_key, show, _is_polykey
+
+    prog = ctx.prog
+    ctx.rule("T5", "the concentration stays strictly positive: every value GammaPriorConcentrationSampler.sample returns is floored by a positive constant (or is the old value / a positive constant); update_concentration_value stores what the sampler returns", 3)
+    f = prog.fn("concentration.GammaPriorConcentrationSampler.sample")
+    ex = extract(prog, f)
+    if ex.result is None:
+        raise AnalysisError("GammaPriorConcentrationSampler.sample returns nothing")
+    a = ex.result.as_atom() if isinstance(ex.result, Poly) else None
+    alts = list(a[1]) if a is not None and a[0] == "cond" else [(None, ex.result.key() if isinstance(ex.result, Poly) else None)]
+
+    def positive_const(k):
+        if _is_polykey(k):
+            p = poly_from_key(k)
+            return p.is_const() and p.const_value() > 0
+        return False
+
+    def floored(k):
+        at = key_atom(k) if k is not None else None
+        if positive_const(k):
+            return True, "a positive constant"
+        if at is not None and at[0] == "v" and at[1] == "P1":
+            return True, "the old value"
+        if at is not None and at[0] == "call" and at[1] in ("max", "np.maximum", "numpy.maximum", "np.fmax") and len(at[2]) == 2:
+            if any(positive_const(x) for x in at[2]):
+                return True, "max(., positive constant)"
+            return False, "max() of two values neither of which is a positive constant"
+        if at is not None and at[0] == "call" and at[1] in ("np.clip", "numpy.clip") and len(at[2]) >= 2 and positive_const(at[2][1]):
+            return True, "clip(., positive constant, .)"
+        if at is not None and at[0] in ("call", "mcall") and (at[1].endswith(".rvs") or at[1] in ("gamma", "standard_gamma", "exponential", "beta")):
+            return False, "a raw draw (%s) that can underflow to 0.0" % at[1]
+        return None, "unrecognised"
+
+    for g, vk in alts:
+        ok, how = floored(vk)
+        label = "sample(): value returned when %s" % (show(Poly.atom(g))[:80] if g is not None and g != True and not isinstance(g, bool) else "no earlier alternative applies")  # noqa: E712
+        if ok is None:
+            raise AnalysisError("T5: GammaPriorConcentrationSampler.sample returns %s, which is neither a floored draw nor a recognised positive value" % show(poly_from_key(vk) if _is_polykey(vk) else Poly.atom(vk))[:200])
+        ctx.check(ok, "T5", label, f.where(), "the concentration sampler returns %s: alpha = 0 gives log(alpha) = -inf, and log_p_one of a tree without clones becomes nan (0 * -inf), of any other tree -inf" % how, construct=f.qualname, stmt="unfloored draw returned")
+    # the run loop stores the sampler's value (no arithmetic that could cancel the floor)
+    upd = prog.fn("run.update_concentration_value")
+    exu = extract(prog, upd, no_inline=["sample"])
+    stores = [e for e in exu.calls("store_attr") if e.kwargs.get("attr") == "alpha"]
+    if len(stores) != 1:
+        raise AnalysisError("T5: update_concentration_value: expected one store to .alpha, found %d" % len(stores))
+    val = stores[0].args[-1] if stores[0].args else None
+    at = val.as_atom() if isinstance(val, Poly) else None
+    ok = at is not None and at[0] == "mcall" and at[1] == "sample"
+    ctx.check(ok, "T5", "update_concentration_value stores the sampler's value unchanged", upd.where(stores[0].node), "the value stored in prior.alpha is %s, not the sampler's (floored) return value" % (show(val)[:160] if val is not None else "?"), construct=upd.qualname, stmt="prior.alpha = ...")
+    ctx.analysed(f, upd)
+
+
 def _ancestors(n, pm):
     cur = pm.get(id(n))
     while cur is not None:
@@ -320,6 +380,7 @@ def run(ctx):
     rule_T2(ctx)
     rule_T4(ctx)
     rule_T3(ctx)
+    rule_T5(ctx)
     # "complete trees": no move loses a data point (C07.L1); "finite log_p_one": non-positive convolution
     # entries are floored before the logarithm on both back ends (C02.N4)
     from . import C02, C07
@@ -327,16 +388,32 @@ def run(ctx):
 
     from ..formula import imported
 
+    from . import _premises
+
     ctx._own_rules = set(ctx.rule_min)
     imported(ctx, C07.rule_L1, TreeFx(ctx.prog))
     imported(ctx, C02.rule_N4)
+    # "finite log_p_one": the density's guards keep log(0) terms out (C03.T1-T3); "well-formed recorded trees": the
+    # recorded dictionary form shares nothing with the live tree that later moves edit (C06.M4), and the editor
+    # keeps its maps consistent (TS)
+    _premises.density(ctx)
+    _premises.deep_copies(ctx)
+    _premises.tree_editor(ctx)
 
 
 _PG = "phyclone/mcmc/particle_gibbs.py"
 _CLI = "phyclone/cli.py"
 _R = "phyclone/run.py"
 _SB = "phyclone/smc/samplers/base.py"
+_CONC = "phyclone/mcmc/concentration.py"
 SELFTEST = [
+    {"name": "T5-revert-F12", "kind": "break", "rule": "T5", "file": _CONC, "old": "        new_value = max(new_value, 1e-10)  # Catch numerical error\n", "new": "            new_value = max(new_value, 1e-10)  # Catch numerical error\n"},
+    {"name": "T5-floor-is-zero", "kind": "break", "rule": "T5", "file": _CONC, "old": "new_value = max(new_value, 1e-10)", "new": "new_value = max(new_value, 0.0)"},
+    {"name": "T5-floor-dropped", "kind": "break", "rule": "T5", "file": _CONC, "old": "        new_value = max(new_value, 1e-10)  # Catch numerical error\n", "new": ""},
+    {"name": "T5-early-return-of-prior-draw", "kind": "break", "rule": "T5", "file": _CONC, "old": "            new_value = gamma.rvs(self.a, scale=(1 / self.b), random_state=self._rng)\n", "new": "            return gamma.rvs(self.a, scale=(1 / self.b), random_state=self._rng)\n"},
+    {"name": "T5-stored-value-shifted", "kind": "break", "rule": "T5", "file": _R, "old": "tree_dist.prior.alpha = conc_sampler.sample(tree_dist.prior.alpha, len(node_sizes), sum(node_sizes))", "new": "tree_dist.prior.alpha = conc_sampler.sample(tree_dist.prior.alpha, len(node_sizes), sum(node_sizes)) - 1e-10"},
+    {"name": "benign-T5-np-maximum", "kind": "benign", "file": _CONC, "old": "new_value = max(new_value, 1e-10)", "new": "new_value = np.maximum(new_value, 1e-10)"},
+    {"name": "benign-T5-floor-on-each-arm", "kind": "benign", "file": _CONC, "old": "            new_value = gamma.rvs(self.a, scale=(1 / self.b), random_state=self._rng)\n", "new": "            new_value = max(1e-12, gamma.rvs(self.a, scale=(1 / self.b), random_state=self._rng))\n"},
     {"name": "T1-revert-F8", "kind": "break", "rule": "T1", "file": _PG, "old": "        if len(nodes) == 0:\n            return super().sample_tree(tree)\n\n", "new": ""},
     {"name": "T1-guard-after-draw", "kind": "break", "rule": "T1", "file": _PG, "old": "        if len(nodes) == 0:\n            return super().sample_tree(tree)\n\n        subtree_root_child = self._rng.choice(nodes)\n", "new": "        subtree_root_child = self._rng.choice(nodes)\n\n        if len(nodes) == 0:\n            return super().sample_tree(tree)\n"},
     {"name": "T1-prg-early-return-removed", "kind": "break", "rule": "T1", "file": "phyclone/mcmc/gibbs_mh.py", "old": "        if tree.get_number_of_nodes() <= 1:\n            return tree\n\n        remaining_nodes", "new": "        remaining_nodes"},
